@@ -178,6 +178,15 @@ func (c *Ctx) Retain(what string, live func() []byte) {
 	c.retained = append(c.retained, retainedResult{what: what, live: live, snap: snap, born: c.caseSeq})
 }
 
+// Scribble overwrites a byte slice the caller owns, up to its capacity (what
+// an append by the owner may legitimately do).
+func Scribble(b []byte) {
+	full := b[:cap(b)]
+	for i := range full {
+		full[i] ^= 0xA5
+	}
+}
+
 func (c *Ctx) checkRetained() {
 	c.caseSeq++
 	if len(c.retained) == 0 {
@@ -201,6 +210,12 @@ func (c *Ctx) checkRetained() {
 		}
 		if c.caseSeq-r.born < 3 {
 			keep = append(keep, r)
+		} else {
+			// the owner now re-uses its buffer: overwrite it, spare capacity
+			// included. If the library still refers to this memory, the
+			// regular oracles of the following cases see wrong output.
+			TryQuiet(func() { Scribble(now) })
+			c.cov["retained-results-overwritten-by-their-owner"]++
 		}
 	}
 	c.retained = keep
